@@ -59,7 +59,7 @@ def prog_lines(p):
     """program dict -> script lines for harness/testrun.cpp"""
     b = lambda x: "1" if x else "0"
     draws = "-" if p.get("draws") is None else (",".join(str(d) for d in p["draws"]) + ",")
-    lines = [["cfg", p["repeat"], b(p["reverse"]), (p.get("seed", 7) if p["shuffle"] else "-"), b(p["runIgnored"]), draws]]
+    lines = [["cfg", p["repeat"], b(p["reverse"]), (p.get("seed", 7) if p["shuffle"] else "-"), b(p["runIgnored"]), draws, "api" if p.get("api") else "cmd"]]
     for f in p["gf"]:
         lines.append(["gf", f[0], b(f[1]), b(f[2])])
     for f in p["nf"]:
